@@ -192,6 +192,27 @@ FIRST_WAVE_MISSED.update({
     "C16_r": "both compilations happened on the same day: the second process believes it runs three days (and an odd number of seconds) later - the wall clock is an input",
     "C17_r": "data sets were only ever added: in the two-set configuration dA is replaced by name and dB removed and added again before the recording",
 })
+FIRST_WAVE_MISSED.update({
+    "C02_s": "all four types had ordinary ids: D now carries the largest id a definition file may give (10000)",
+    "C03_s": "no long line of clients left without a word: 103 dynamically numbered clients leave by end of stream / a frame cut short / an impossible declared length / a reset in mid-frame, then a newcomer asks for a dynamic id",
+    "C03_t": "the oracle asked whether by-standers were served, not whether they could read what arrived: the streams written to the subscriber, the publisher and the monitor must still be whole frames",
+    "C04_s": "every program was compiled with alignment validation on: a naturally aligned file compiled with VALIDATE_ALIGNMENT false",
+    "C04_t": "no field carried a name another target language reserves: end / otherwise / persistent",
+    "C05_s": "at most one receiver failed per round: two receivers (both listening for departures, as do two survivors) reset at the same instant; and the cross-receiver differences are classified - which also showed a defect of the unchanged tree (a notice published from inside a delivery against the message being delivered: open finding)",
+    "C06_s": "first run: the patch no longer applied after the repair of the connect loop; ported. The three-slot alphabet lacked a dynamically numbered allow-multiple namesake",
+    "C07_s": "the leaver was never found dead in a NESTED delivery: another subscriber of the type is not writable, and it is during the notice about that one that the leaver is found",
+    "C10_s": "arrays were at most four elements long: VLONG with 32-64 element arrays of every width",
+    "C12_t": "parse_compiler_options() was never called before parse() on one Parser: options first, then the file, with every conflict class and a conflict-free file",
+    "C13_s": "the cross-language program never listed a core file itself (and told core items by the source the parser recorded): it now imports two core files explicitly, core items are told by name",
+    "C13_t": "only clients were looked at as senders: the manager's own frames (acknowledgements, CLIENT_INFO / CLIENT_CLOSED, failure notices, reports, log records) carry version 0 or the hash of their own type",
+    "C15_t": "alias chains were at most three links long: fifteen links across two files",
+    "C16_s": "no working directory had a telling name: the first run works in a directory called core_defs",
+    "C16_t": "no imported file carried compiler options in the closures of the round trip: three closures with a vendor file saying AUTO_PAD / VALIDATE_ALIGNMENT false between files whose definitions need padding",
+    "C17_t": "quicklogger files held core types only and every load used a fresh reader: files of user-defined types, several loads by one reader and by fresh ones, in a process that knows the core definitions only",
+    "C18_s": "every publisher had said CONNECT: a connection that never did publishes",
+    "C18_t": "type id -1 had been left out of the alphabet because the observer could not tell it from the table's end marker: a slot (-1, n > 0) is an entry, and -1 is published at the places where a sub-message fills up",
+    "C19_t": "requests named ordinary ids: 0, 9999, 10000, 12345, -1, -5, INT_MIN, INT_MAX-1 for all four request kinds",
+})
 NEUTRALIZED = {"C07_l": "the change made send_client_close() return early when called from inside another CLIENT_CLOSED delivery; the repair of the recursion defect (ac6efbb) announces departures one after the other, so the nested call no longer exists and the early return is never taken (the demonstration passes on the repaired tree)",
                "C17_b": "the change re-ordered the two Event operations of the hand-off; the second data-logger repair made the pair atomic under a lock, so the re-ordering no longer breaks the property (the demonstration passes on the repaired tree)"}
 rows = []
